@@ -17,6 +17,16 @@ CHECKS = {
    design="DESIGN.md §2 C06"),
 }
 
+CHECKS["C05"] = dict(
+   text="Theorems over ALL byte streams about the Lean model dblast of qmail-smtpd.c blast(): the 5-state automaton equals a line-based RFC 5321 reference decoder "
+        "(verdict, stored bytes, unread remainder); accepted iff CRLF-terminated LF-free non-lone-dot lines followed by .CRLF; a bare LF is refused (451); "
+        "decode(encode m)=m for a reference conforming sender and for this package's own client. Tied to the current source by running the real blast() "
+        "(sanitised build of the working tree) against the compiled model on every string over {CR,LF,'.',x} up to length 9/12 (and each followed by a terminator and next command), "
+        "hop-counter header sets, random streams; oracle = reference decoder on the implementation's behaviour.",
+   note=NOTE_COMMON + "Modelled, not verified: substdio_get buffering (several chunkings are run); the hop counter is tied by correspondence only (no theorem yet); timeouts.",
+   technique="Lean 4 proof (automaton = line spec; framing iff; round-trip simulations) + exhaustive differential correspondence with the C code",
+   design="DESIGN.md §2 C05")
+
 PENDING = {}
 
 def main():
